@@ -134,7 +134,6 @@ theorem HcInv.ackStep {s : State F} (h : HcInv s) (fq : FrameQ.State) (ps : PSen
   fqt := hfqt
   pr := h.pr
   rate := h.rate
-  rmax := h.rmax
   sync := h.sync
   clock := h.clock
 
